@@ -391,6 +391,8 @@ def _game_family(name, shard):
             _FAMILIES[key] = U.U_H_games()
         elif name == "U-J":
             _FAMILIES[key] = U.U_J_games()
+        elif name == "U-SC":
+            _FAMILIES[key] = U.U_SC_games((16, 32, 50, 64, 100, 128, 256) if shard.get("all_sizes") else (256,))
         elif name in ("U-E", "U-C", "U-L", "U-R", "U-P2", "U-N", "U-W", "U-Z", "U-G", "U-K"):
             _FAMILIES[key] = {"U-E": U.U_E_games, "U-C": U.U_C_games, "U-L": U.U_L_games, "U-R": U.U_R_games,
                               "U-P2": U.U_P2_games, "U-N": U.U_N_games, "U-W": U.U_W_games, "U-Z": U.U_Z_games, "U-G": U.U_G_games, "U-K": U.U_K_games}[name]()
